@@ -53,6 +53,12 @@ def identity(e, args, fr, m):
     return args[0]
 
 
+@contract(r'^<(.+) as Into<\1>>::into$|^<(.+) as From<\2>>::from$')
+def into_self(e, args, fr, m):
+    """blanket `impl<T> From<T> for T`"""
+    return args[0]
+
+
 @contract(r'^<.* as Deref>::deref$')
 def deref(e, args, fr, m):
     v = e.load(args[0])
